@@ -85,7 +85,8 @@ def cosT (x : Rat) : Rat :=
 def checkLoc (a b c r : F) : Verdict :=
   match a.q?, b.q?, c.q? with
   | some a, some b, some c =>
-    let inDom := decide (a ≥ 1 / 1000) && decide (a ≤ 10000) && decide (b ≥ 1 / 1000) && decide (b ≤ 10000) &&
+    -- sides whose squares stay far inside the normal range of binary32 (1e-10 … 1e4)
+    let inDom := decide (a ≥ 1 / 10000000000) && decide (a ≤ 10000) && decide (b ≥ 1 / 10000000000) && decide (b ≤ 10000) &&
                  decide (c ≥ 0) && decide (c ≤ 30000)
     if !inDom then { agree := true, model := "(outside the asserted magnitudes: no claim)" } else
     let x := cosArg a b c
